@@ -658,7 +658,14 @@ class P(Prop):
     @classmethod
     def classify_exc(cls, e):
         frames = [f.name for f in traceback.extract_tb(e.__traceback__)]
-        return cls.classify(type(e).__name__, str(e), frames)
+        return cls.classify(type(e).__name__, str(e), frames) or cls.unclassified("%s: %s (in %s)" % (type(e).__name__, str(e)[:200], frames[-1] if frames else "?"))
+
+    @staticmethod
+    def unclassified(tname):
+        """an exception the table above does not know (a reworded message, another type): the merge REFUSED the input.
+        Whether it may is the oracle's question (well-formed input must be merged); which enum the model expects is
+        the correspondence's.  Never an exception out of run_impl (audit 3, X2)."""
+        return "unclassified:" + tname
 
     @classmethod
     def classify_stderr(cls, text):
@@ -688,10 +695,8 @@ class P(Prop):
                 raw, scan, seq = percolator.parse_andromeda_psmid_and_peptide(case["psmid"], pept[2:-2])
             except IndexError:
                 return {"err": "bad_psmid"}
-            except ValueError as e:
-                if "invalid literal for int" in str(e):
-                    return {"err": "bad_scan"}
-                raise
+            except ValueError:  # the only conversion in that function is the scan number's (by type + call site, not by text)
+                return {"err": "bad_scan"}
             return {"raw": raw, "scan": scan, "modseq": seq}
         if "prosit_key" in case:
             from picked_group_fdr.parsers import percolator, modifications
@@ -701,10 +706,8 @@ class P(Prop):
                     case["prosit_key"], case["peptide"][2:-2], case["filename"], modifications.prosit_mod_to_proforma())
             except IndexError:
                 return {"err": "bad_psmid"}
-            except ValueError as e:
-                if "could not convert string to float" in str(e):
-                    return {"err": "bad_scan"}
-                raise
+            except ValueError:
+                return {"err": "bad_scan"}
             return {"raw": raw, "scan": scan, "modseq": seq}
         from picked_group_fdr.pipeline import update_evidence_from_pout as u
 
@@ -724,9 +727,7 @@ class P(Prop):
                         [lib.PY, "-m", "picked_group_fdr.pipeline.update_evidence_from_pout"] + self.argv(ev, res, out, case.get("pout_flag", False)),
                         env=lib.impl_env(), cwd=d, capture_output=True, text=True, timeout=300)
                     if p.returncode != 0:
-                        enum = self.classify_stderr(p.stderr)
-                        if enum is None:
-                            raise RuntimeError("python -m ...update_evidence_from_pout exited %d: %s" % (p.returncode, p.stderr[-600:]))
+                        enum = self.classify_stderr(p.stderr) or self.unclassified("exit %d: %s" % (p.returncode, p.stderr.strip()[-300:]))
                         if os.path.exists(out):
                             return {"err": enum, "published_despite_error": True}
                         return {"err": enum}
@@ -734,8 +735,6 @@ class P(Prop):
                     u.main(self.argv(ev, res, out, case.get("pout_flag", False)))
             except Exception as e:
                 enum = self.classify_exc(e)
-                if enum is None:
-                    raise
                 if os.path.exists(out):
                     return {"err": enum, "published_despite_error": True}
                 return {"err": enum}
@@ -760,8 +759,6 @@ class P(Prop):
                 fixed, res = u.get_percolator_results(paths, case["input_type"])
             except Exception as e:
                 enum = self.classify_exc(e)
-                if enum is None:
-                    raise
                 return {"err": enum}
             k = [i for i, x in enumerate(modifications.FIXED_MODS_DICTS) if x is fixed]
             if len(k) != 1:
@@ -781,8 +778,6 @@ class P(Prop):
             pl.run_update_evidence(ev, res, outs, "andromeda", False)
         except Exception as e:
             err = self.classify_exc(e)
-            if err is None:
-                raise
         texts = []
         for o in outs:
             if not os.path.exists(o):
@@ -848,8 +843,10 @@ class P(Prop):
     # ------------------------------------------------------------------ the property, stated directly
     PSMID = re.compile(r"^(?:(.*)_)?([+-]?[0-9]+)_[^_]*_[^_]*$", re.S)
 
-    def _join_table(self, results):
-        """(raw, scan, modseq) -> (score, pep) written strings; later rows win.  None if a result file is malformed."""
+    def _join_table(self, results, every=None):
+        """(raw, scan, modseq) -> (score, pep) written strings; later rows win (the reading of the code and the model).
+        None if a result file is malformed.  `every` (a dict), when given, receives key -> the (score, PEP) VALUES of
+        EVERY result row with that key: the property says nothing on which of several rows of one scan is used."""
         table = {}
         for r in results:
             rows = r["rows"]
@@ -879,7 +876,10 @@ class P(Prop):
                 pept = row[ix["pept"]]
                 seq = pept[2:-2] if len(pept) >= 4 else ""
                 seq = seq.replace("[42]", "(ac)").replace("M[16]", "M(ox)")
-                table[(m.group(1) or "", int(m.group(2)), seq)] = (written(row[ix["score"]]), written(row[ix["pep"]]))
+                key = (m.group(1) or "", int(m.group(2)), seq)
+                table[key] = (written(row[ix["score"]]), written(row[ix["pep"]]))
+                if every is not None:
+                    every.setdefault(key, []).append((float(row[ix["score"]]), float(row[ix["pep"]])))
         return table
 
     def _expected(self, evidence, results):
@@ -922,6 +922,112 @@ class P(Prop):
                     exp.append(new)
         return exp
 
+    # ---- what the property TEXT fixes (audit 3, C15-1..6).  `_expected` above is the reading of the code and of the
+    # model: repr(float) strings, the LAST result row of a scan wins, match-between-runs = empty scan cell (or -1),
+    # result files without rows = concatenation, a path given twice is merged twice.  Output equal to it is accepted
+    # at once; output that differs from it is a failing input only when NO reading the text allows produces it.
+    @staticmethod
+    def _num(cell):
+        try:
+            return float(cell)
+        except (TypeError, ValueError):
+            try:
+                return float(str(cell).strip("'\""))
+            except ValueError:
+                return None
+
+    @classmethod
+    def _same_value(cls, cell, v):
+        g = cls._num(cell)
+        return g is not None and (g == v or (g != g and v != v))
+
+    def _fates(self, evidence, results, concat):
+        """[(input row, score column, PEP column, may pass unchanged, may be dropped, [(score, PEP) values it may be
+        rewritten with])] for the rows of the files in order, or None when the input is malformed.
+        concat: the reading 'no rescoring results = plain concatenation'."""
+        every = {}
+        if self._join_table(results, every) is None:
+            return None
+        raws_in = {k[0] for k in every}
+        fates = []
+        for f in evidence:
+            if not f:
+                return None
+            names = [h.lower() for h in f[0]]
+            scan_name = "ms/ms scan number" if "ms/ms scan number" in names else "scan number"
+            req = ["score", "pep", "raw file", scan_name, "modified sequence", "type", "reverse", "potential contaminant"]
+            if any(n not in names for n in req):
+                return None
+            ix = {n: names.index(n) for n in req}
+            for row in f[1:]:
+                if max(ix.values()) >= len(row):
+                    return None
+                scan = row[ix[scan_name]]
+                if concat:
+                    fates.append((row, ix["score"], ix["pep"], True, False, []))
+                    continue
+                # match-between-runs row: the text does not say how one is recognised.  Two readings: the row has no
+                # scan number (the code; -1, the code's internal mark, is not judged) / MaxQuant labels it MULTI-MATCH.
+                # A row on which they agree is judged as that; otherwise either treatment is accepted.
+                minus1 = scan != "" and int(scan) == -1
+                mbr_by_scan = scan == ""
+                mbr_by_type = row[ix["type"]] == "MULTI-MATCH"
+                as_mbr = mbr_by_scan or mbr_by_type or minus1
+                as_msms = not (mbr_by_scan and mbr_by_type)
+                same, gone, pairs = as_mbr, False, []
+                if as_msms:
+                    ms = row[ix["modified sequence"]]
+                    key = (row[ix["raw file"]], int(scan), ms[1:-1] if len(ms) >= 2 else "") if scan != "" else None
+                    if key is not None and row[ix["raw file"]] in raws_in and key in every:
+                        pairs = every[key]
+                    else:
+                        gone = True
+                fates.append((row, ix["score"], ix["pep"], same, gone, pairs))
+        return fates
+
+    def _fits(self, out, fate):
+        row, sc, pc, same, gone, pairs = fate
+        if same and out == row:
+            return True
+        if pairs and len(out) == len(row) and all(a == b for k, (a, b) in enumerate(zip(out, row)) if k not in (sc, pc)):
+            return any(self._same_value(out[sc], s) and self._same_value(out[pc], p) for s, p in pairs)
+        return False
+
+    def _allowed(self, got, evidence, results):
+        """is `got` (header + rows read from the output) what SOME reading the text allows gives?"""
+        ev_lists = [evidence]
+        dedup = [f for k, f in enumerate(evidence) if not any(f is g for g in evidence[:k])]
+        if len(dedup) != len(evidence):
+            ev_lists.append(dedup)  # a path given twice: the text speaks of a SET of files
+        nrows = sum(max(0, len(r["rows"]) - 1) for r in results)
+        readings = [True] if not results else ([False, True] if nrows == 0 else [False])
+        for ev in ev_lists:
+            for concat in readings:
+                fates = self._fates(ev, results, concat)
+                if fates is None or not got or got[0] != ev[0][0]:
+                    continue
+                out, reach = got[1:], {0}
+                for fate in fates:
+                    nxt = set()
+                    for j in reach:
+                        if fate[4]:
+                            nxt.add(j)
+                        if j < len(out) and self._fits(out[j], fate):
+                            nxt.add(j + 1)
+                    reach = nxt
+                    if not reach:
+                        break
+                if len(out) in reach:
+                    return True
+        return False
+
+    def _judge(self, got, evidence, results, exp):
+        if got == exp:
+            return None
+        if self._allowed(got, evidence, results):
+            return None
+        return self._diff(got, exp)
+
     def oracle(self, case, impl_out):
         if not isinstance(impl_out, dict):
             return "no output: %r" % (impl_out,)
@@ -938,7 +1044,8 @@ class P(Prop):
         if case.get("kind") == "dict":
             if case["input_type"] == "prosit":
                 return None  # outside the property text: correspondence only
-            table = self._join_table(case["results"])
+            every = {}
+            table = self._join_table(case["results"], every)
             if "err" in impl_out:
                 return None if table is None else "well-formed result files rejected with %s (get_percolator_results, input type %r)" % (
                     impl_out["err"], case["input_type"])
@@ -946,13 +1053,17 @@ class P(Prop):
                 return None
             got = {(raw, scan, seq): (sc, pep) for raw, inner in impl_out["dict"] for scan, seq, sc, pep in inner}
             if got != table:
+                # audit 3 (C15-1/2): the VALUES count, not their spelling, and any row of a repeated key may supply them
+                if set(got) == set(every) and all(
+                        any(self._same_value(sc, s) and self._same_value(pep, p) for s, p in every[k]) for k, (sc, pep) in got.items()):
+                    return None
                 diff = sorted(set(got.items()) ^ set(table.items()), key=repr)[:4]
                 return ("rescoring results filed under other keys / values than (raw file, scan) of the identifier "
-                        "<raw file>_<scan>_<charge>_<rank>, the peptide cell and the last row's values give (input type %r); "
-                        "differing entries: %r" % (case["input_type"], diff))
+                        "<raw file>_<scan>_<charge>_<rank>, the peptide cell and the values of a row with that key give (input type %r); "
+                        "entries differing from the last-row-wins table: %r" % (case["input_type"], diff))
             return None
-        if impl_out.get("published_despite_error"):
-            return "the step raised %s but an output file exists under the final name" % impl_out.get("err")
+        # (an output file under the final name after an error is C16's subject: `published_despite_error` stays in the
+        # implementation's view, where the model - which has no such field - disagrees with it; audit 3, C15-18)
         evidence, results = self.given(case)
         ev_paths, res_paths, ev_args, res_args, entry = self._naming(case)
         how = "%s entry, evidence given as %s, results as %s" % (entry, [ev_paths[i] for i in ev_args], [res_paths[i] for i in res_args])
@@ -971,7 +1082,7 @@ class P(Prop):
                     return None
                 if exp is None:
                     return None  # malformed input the implementation tolerated: outside the property
-                why = self._diff(got_files[k], exp)
+                why = self._judge(got_files[k], [f], results, exp)
                 if why:
                     return "file %d: %s (%s)" % (k, why, how)
             if "err" in impl_out or len(got_files) != len(evidence):
@@ -984,7 +1095,7 @@ class P(Prop):
             return None
         if exp is None:
             return None  # malformed input the implementation tolerated: outside the property
-        why = self._diff(tsv_parse(impl_out["text"]), exp)  # cell values, read with the independent reader
+        why = self._judge(tsv_parse(impl_out["text"]), evidence, results, exp)  # cell values, read with the independent reader
         return "%s (%s)" % (why, how) if why else None
 
     @staticmethod
@@ -999,7 +1110,10 @@ class P(Prop):
                         cells = " [cells " + ", ".join("%d: %r instead of %r" % (k, a, b) for k, (a, b) in enumerate(zip(g, e)) if a != b) + "]"
                     return (f"output row {i} (cell values as read from the output file): got {g} but the header of the first file "
                             f"given / the join on (raw file, scan, modified sequence) over the files in the order given - rows "
-                            f"without scan number unchanged, rows with one rewritten (score, PEP only) or dropped - gives {e}{cells}")
+                            f"without scan number unchanged, rows with one rewritten (score, PEP only) or dropped - gives {e}{cells}; "
+                            f"nor is the output what any other reading of the text gives (score / PEP compared as numbers, any result "
+                            f"row of a repeated scan, match-between-runs rows recognised by Type MULTI-MATCH, rows dropped instead of "
+                            f"concatenated when the result files hold no rows, a file given twice merged once)")
         return None
 
     # ------------------------------------------------------------------ bookkeeping
